@@ -55,7 +55,7 @@ impl<'a> TypeFn for Eval<'a> {
         let f32mode = T::MANT < 53;
         let u = if f32mode { 2f64.powi(-24) } else { 2f64.powi(-53) };
         let tt = tables_for(self.tabs, &self.table.ty).ok_or("tables")?;
-        let rf = Ref { tabs: self.tabs, tt, u };
+        let rf = Ref { tabs: self.tabs, tt, u, floor: true };
         let mut vals: Vec<Jet> = vec![];
         for i in 0..self.member.nv {
             let mut j = Jet::new();
